@@ -142,6 +142,79 @@ impl Family for CycleCounts {
     }
 }
 
+/// statements wider than any inline capacity (15..300 parameters): bind one table, rebind another
+/// (all positions, or only the last / the 17th / every other position changed), reuse; then a
+/// second statement of another width. Every position must be decoded with the table of the last
+/// bind - a stale entry at position 16+ is as wrong as one at position 0.
+struct WideRebinds;
+const WIDTHS: [usize; 9] = [3, 15, 16, 17, 18, 33, 64, 65, 300];
+impl WideRebinds {
+    fn table(n: usize, base: usize, change: usize) -> Vec<(u8, bool)> {
+        // base table: types cycle with the position; `change` decides which positions get the other table
+        (0..n)
+            .map(|i| {
+                let changed = match change {
+                    0 => false,
+                    1 => true,
+                    2 => i == n - 1,
+                    3 => i == 16.min(n - 1),
+                    _ => i % 2 == 1,
+                };
+                let k = if changed { base + 3 } else { base };
+                [(0x03u8, false), (0x01, true), (0x08, true), (0x02, false), (0x03, true), (0x09, false)][(i + k) % 6]
+            })
+            .collect()
+    }
+    fn exec(id: u32, table: &[(u8, bool)], step: usize, bind: bool) -> Vec<u8> {
+        use crate::refwire::*;
+        let ps: Vec<ExecParam> = table
+            .iter()
+            .enumerate()
+            .map(|(i, (ty, u))| ExecParam { ty: *ty, unsigned: *u, wire: Some((0..DistinctTables::width(*ty)).map(|b| (0x81 + step * 5 + i * 11 + b * 3) as u8).collect()), long: false })
+            .collect();
+        cmd_execute(id, 0, 1, &exec_block(&ps, bind))
+    }
+}
+impl Family for WideRebinds {
+    fn name(&self) -> String {
+        "rebinds-of-wide-statements".into()
+    }
+    fn len(&self) -> u64 {
+        (WIDTHS.len() * 5) as u64
+    }
+    fn run(&self, idx: u64, st: &mut Stats) -> Result<(), Violation> {
+        use crate::refwire::*;
+        let n = WIDTHS[(idx / 5) as usize];
+        let change = (idx % 5) as usize;
+        st.nontrivial += 1;
+        st.bump("wide_rebinds");
+        let (t1, t2) = (Self::table(n, 0, 0), Self::table(n, 0, change));
+        let m = if n == 3 { 20 } else { 3 };
+        let t3 = Self::table(m, 1, 0);
+        let payloads = vec![
+            with_byte(COM_STMT_PREPARE, format!("id=1 p={}", n).as_bytes()),
+            with_byte(COM_STMT_PREPARE, format!("id=2 p={}", m).as_bytes()),
+            Self::exec(1, &t1, 0, true),
+            Self::exec(1, &t1, 1, false),
+            Self::exec(2, &t3, 2, true),
+            Self::exec(1, &t2, 3, true),
+            Self::exec(1, &t2, 4, false),
+            Self::exec(2, &t3, 5, false),
+            Self::exec(1, &t1, 6, true),
+            Self::exec(1, &t1, 7, false),
+        ];
+        run_payloads(&payloads, &[], st).map(|_| ()).map_err(|mut v| {
+            v.msg = format!("statement of {} parameters, rebind variant {}: {}", n, change, v.msg);
+            v
+        })
+    }
+    fn describe(&self, idx: u64) -> serde_json::Value {
+        let n = WIDTHS[(idx / 5) as usize];
+        let v = ["the same table", "every position changed", "only the last position changed", "only position 16 changed", "every other position changed"][(idx % 5) as usize];
+        json!({"parameters": n, "second_table": v})
+    }
+}
+
 pub fn build(quick: bool) -> Check {
     let alpha = alphabet();
     let prefix = vec![Action::Prepare { id: 1, n: 2, ok: true }, Action::Prepare { id: 2, n: 2, ok: true }];
@@ -177,17 +250,18 @@ pub fn build(quick: bool) -> Check {
     families.push(Box::new(Histories { label: "bind-reuse".into(), hists: scale_types() }));
     families.push(Box::new(Histories { label: "bind-reuse-counter-wraps".into(), hists: wraps_types(quick) }));
     families.push(Box::new(DistinctTables { ns: if quick { vec![300, 65_540] } else { vec![300, 65_535, 65_536, 65_540, 131_080, 200_000] } }));
+    families.push(Box::new(WideRebinds));
     families.push(Box::new(CycleCounts { max_k: if quick { 600 } else { 1300 } }));
     families.push(Box::new(super::soak::Soak { label: "executions-and-churn", lens: super::soak::lens(quick), mixes: vec![super::soak::Mix::Executions, super::soak::Mix::Churn, super::soak::Mix::Even], opts: super::soak::opts_all(), big: vec![] }));
     Check {
         id: "C16",
         level: "model_checking",
-        rule: format!("two prepared statements of 2 parameters; histories over {} actions: EXECUTE(id 1|2, reuse | bind LONG | TINY UNSIGNED | VAR_STRING | BIGINT UNSIGNED | LONG UNSIGNED (same type code, other signedness; values have the top bit set) | MYSQL_TYPE_NULL, first parameter NULL or not), executions whose parameters the shim does not look at or of which it reads only the first, long data pending for the second parameter, CLOSE, re-PREPARE; 65540 (thorough: 200000) distinct type tables bound by one statement; every number k <= 600 (1300) of prepare/close cycles of other ids between a CLOSE and the re-PREPARE of the same id; 65536+ reuses / rebinds of one statement. Values are position- and step-dependent so that decoding with another statement's or an older type table, or from a shifted offset, gives a different value. Full tree to depth {} (thorough: depth 6 over a 17-action core) plus BFS over model states with two witnesses. Plus 4..300 statements each with its own table, all reused afterwards, and 4 statements under 160..3000 mixed executions. Long scripted sessions: 130..4099 (thorough: up to 131101) ordinary commands of every kind on one connection in up to six mixes (even, prepare/close churn with growing ids, executions, long-data chunks, unanswered commands, text and library-answered commands) under several client/transport behaviours (pipelined, request ids advancing by 7, lock-step, 1..4093-byte reads, 7/11-byte writes), generated by a fixed rule, kept valid with the registry model and judged on the complete trace (callbacks with arguments, result, strict decode of every reply with its sequence ids). Oracle: types and values seen by the shim equal the model's (last table bound for that statement).", alpha.len(), if quick {4} else {5}),
+        rule: format!("two prepared statements of 2 parameters; histories over {} actions: EXECUTE(id 1|2, reuse | bind LONG | TINY UNSIGNED | VAR_STRING | BIGINT UNSIGNED | LONG UNSIGNED (same type code, other signedness; values have the top bit set) | MYSQL_TYPE_NULL, first parameter NULL or not), executions whose parameters the shim does not look at or of which it reads only the first, long data pending for the second parameter, CLOSE, re-PREPARE; 65540 (thorough: 200000) distinct type tables bound by one statement; statements of 3..300 parameters rebound with a table that differs everywhere / only at the last / only at position 16 / at every other position, next to a second statement of another width; every number k <= 600 (1300) of prepare/close cycles of other ids between a CLOSE and the re-PREPARE of the same id; 65536+ reuses / rebinds of one statement. Values are position- and step-dependent so that decoding with another statement's or an older type table, or from a shifted offset, gives a different value. Full tree to depth {} (thorough: depth 6 over a 17-action core) plus BFS over model states with two witnesses. Plus 4..300 statements each with its own table, all reused afterwards, and 4 statements under 160..3000 mixed executions. Long scripted sessions: 130..4099 (thorough: up to 131101) ordinary commands of every kind on one connection in up to six mixes (even, prepare/close churn with growing ids, executions, long-data chunks, unanswered commands, text and library-answered commands) under several client/transport behaviours (pipelined, request ids advancing by 7, lock-step, 1..4093-byte reads, 7/11-byte writes), generated by a fixed rule, kept valid with the registry model and judged on the complete trace (callbacks with arguments, result, strict decode of every reply with its sequence ids). Oracle: types and values seen by the shim equal the model's (last table bound for that statement).", alpha.len(), if quick {4} else {5}),
         assumptions: vec!["reusing types when none were ever bound ends the history (protocol violation by the client)".into()],
         bounds: json!({"tree_depth": if quick {4} else {5}, "core_tree_depth": if quick {0} else {6}, "alphabet": alpha.len()}),
         exhaustive: true,
         caps_hit: vec![],
         families,
-        required: vec!["soak_sessions", "distinct_type_tables", "cycle_counts", "reuse_after_bind", "re_prepare", "bfs_states", "long_histories"],
+        required: vec!["soak_sessions", "distinct_type_tables", "wide_rebinds", "cycle_counts", "reuse_after_bind", "re_prepare", "bfs_states", "long_histories"],
     }
 }
